@@ -216,11 +216,13 @@ fn dec_ops(s: &str) -> Option<Vec<Op>> {
 enum Case {
     Script { ez: bool, ops: Vec<Op> },
     Conc { ez: bool, readers: usize, rep: usize, threads: Vec<Vec<Op>> },
+    Window(WindowCase),
 }
 
 impl Case {
     fn encode(&self) -> String {
         match self {
+            Case::Window(w) => w.encode(),
             Case::Script { ez, ops } => format!("script {} {}", *ez as u8, enc_ops(ops)),
             Case::Conc { ez, readers, rep, threads } => format!(
                 "conc {} {} {} {}",
@@ -233,6 +235,9 @@ impl Case {
     }
     fn decode(s: &str) -> Option<Case> {
         let s = s.trim();
+        if s.starts_with("window ") {
+            return WindowCase::decode(s).map(Case::Window);
+        }
         if let Some(rest) = s.strip_prefix("script ") {
             let (ez, ops) = rest.split_once(' ').unwrap_or((rest, ""));
             let ops = dec_ops(ops)?;
@@ -382,7 +387,10 @@ fn canon_item(name: &str, v: &RecVal) -> Result<Item, String> {
         _ => 'H',
     };
     let key = (|| {
-        let name_id = NAMES.iter().position(|n| *n == name)?;
+        let name_id = match NAMES.iter().position(|n| *n == name) {
+            Some(i) => i,
+            None => FRESH_BASE + name.strip_prefix("fresh_")?.parse::<usize>().ok()?,
+        };
         let mut labels = vec![];
         for (k, v) in dims {
             labels.push((LKEYS.iter().position(|x| x == k)?, LVALS.iter().position(|x| x == v)?));
@@ -1003,6 +1011,31 @@ fn run_conc(ez: bool, readers: usize, rep: usize, threads: &[Vec<Op>]) -> ConcRu
         }
     }
 
+    // names whose (single) unit is described, in program order, before every thread's first registration of a key of
+    // that name: a readout that reports such a metric saw its registration, hence (walk first, unit map afterwards)
+    // must report it with the described unit — in every readout, not only the final one
+    let mut obliged: BTreeMap<usize, usize> = BTreeMap::new();
+    for (n, us) in &described {
+        if us.len() != 1 {
+            continue;
+        }
+        let u = *us.iter().next().unwrap();
+        let ok = threads.iter().all(|ops| {
+            let first_use = ops.iter().position(|o| match o {
+                Op::RegC(k) | Op::RegG(k) | Op::RegH(k) | Op::C(k, _) | Op::Ci(k, _) | Op::G(k, _) | Op::H(k, _) => k.name == *n,
+                _ => false,
+            });
+            let first_desc = ops.iter().position(|o| matches!(o, Op::D(m, _) if m == n));
+            match (first_use, first_desc) {
+                (None, _) => true,
+                (Some(_), None) => false,
+                (Some(a), Some(d)) => d < a,
+            }
+        });
+        if ok {
+            obliged.insert(*n, u);
+        }
+    }
     let mut failure: Option<(&'static str, String)> = None;
     let mut fail = |f: (&'static str, String)| {
         if failure.is_none() {
@@ -1036,6 +1069,17 @@ fn run_conc(ez: bool, readers: usize, rep: usize, threads: &[Vec<Op>]) -> ConcRu
             };
             if !unit_ok {
                 fail(("metricsrs:unit", format!("{} {} written with unit {:?}; described: {:?}", it.kind, k.enc(), it.unit, ds)));
+            }
+            if let Some(u) = obliged.get(&k.name) {
+                if it.unit != Ok(*u) {
+                    fail((
+                        "metricsrs:unit-described-before-register",
+                        format!(
+                            "{} {} was described with unit {} before it was registered, but readout {} of {} reports it with unit {:?}",
+                            it.kind, k.enc(), UNITS[*u].0, ei + 1, n_readouts, it.unit
+                        ),
+                    ));
+                }
             }
             if is_final {
                 if let Ok(u) = it.unit {
@@ -1364,7 +1408,249 @@ fn gen_conc(rng: &mut Rng, threads: usize, ops_per_thread: usize) -> Vec<Vec<Op>
     for (n, u) in describe {
         out[0].insert(0, Op::D(n, u));
     }
+    // a fresh name per thread (names 3.. are not used by the shared keys): described, then registered and updated by
+    // that thread only, somewhere in the middle of the run — whichever readout reports it must carry the unit
+    for (t, ops) in out.iter_mut().enumerate() {
+        if 3 + t >= NAMES.len() || !rng.chance(3, 4) {
+            continue;
+        }
+        let name = 3 + t;
+        let key = KeyId { name, labels: if rng.chance(1, 2) { vec![] } else { vec![(rng.below(LKEYS.len() as u64) as usize, 0)] } };
+        let u = rng.range(1, UNITS.len() as u64 - 1) as usize;
+        let at = rng.below(ops.len() as u64 + 1) as usize;
+        let mut block = vec![Op::D(name, u)];
+        for _ in 0..rng.range(1, 4) {
+            block.push(match rng.below(3) {
+                0 => Op::C(key.clone(), rng.range(1, 9)),
+                1 => Op::G(key.clone(), gen_gauge_bits(rng)),
+                _ => Op::H(key.clone(), *rng.pick(&palette)),
+            });
+        }
+        ops.splice(at..at, block);
+    }
     out
+}
+
+// ------------------------------------------------------------------------------------------------
+// window stage: a describe + registration + update lands INSIDE a readout that is in progress
+
+/// model ids of the fresh names `fresh_<r>` of the window stage
+const FRESH_BASE: usize = 100;
+
+/// `window <emit_zero> <fillers> <kind><unit> …` — a recorder with `<fillers>` filler counters (so that the registry
+/// walk of a readout takes a while); one round per `<kind><unit>` (`c`/`g`/`h` + unit id): while a readout is in
+/// progress a brand-new name `fresh_<round>` is described with the unit, THEN a metric of that name is registered and
+/// updated (same thread, so describe happens-before register). Whichever readout reports the metric must carry the
+/// unit (a readout that saw the registration reads the unit map afterwards). The action runs either inside the
+/// `verif::point(20)` hook at the start of the registry walk (deterministic, when /repo has that point) or on a
+/// second thread released right before `readout()` is called.
+#[derive(Clone, Debug)]
+struct WindowCase {
+    ez: bool,
+    fillers: usize,
+    rounds: Vec<(char, usize)>,
+}
+
+impl WindowCase {
+    fn encode(&self) -> String {
+        format!(
+            "window {} {} {}",
+            self.ez as u8,
+            self.fillers,
+            self.rounds.iter().map(|(k, u)| format!("{k}{u}")).collect::<Vec<_>>().join(" ")
+        )
+    }
+    fn decode(s: &str) -> Option<WindowCase> {
+        let mut it = s.strip_prefix("window ")?.split_whitespace();
+        let ez = parse_bool(it.next()?)?;
+        let fillers: usize = it.next()?.parse().ok()?;
+        let mut rounds = vec![];
+        for t in it {
+            let k = t.chars().next()?;
+            let u: usize = t[1..].parse().ok()?;
+            if !"cgh".contains(k) || u == 0 || u >= UNITS.len() {
+                return None;
+            }
+            rounds.push((k, u));
+        }
+        Some(WindowCase { ez, fillers, rounds })
+    }
+}
+
+static HOOK_ARMED: AtomicBool = AtomicBool::new(false);
+static HOOK_ACTION: std::sync::Mutex<Option<Box<dyn Fn() + Send + Sync>>> = std::sync::Mutex::new(None);
+static HOOK_FIRED: AtomicUsize = AtomicUsize::new(0);
+
+fn install_window_hook() {
+    metrique_writer_core::verif::set_callback(Some(Box::new(|id| {
+        // point 20: start of the registry walk of `MetricsRsVersion::readout` (after the caller's preparations)
+        if id == 20 && HOOK_ARMED.swap(false, Ordering::SeqCst) {
+            if let Some(a) = HOOK_ACTION.lock().unwrap().as_ref() {
+                a();
+                HOOK_FIRED.fetch_add(1, Ordering::SeqCst);
+            }
+        }
+    })));
+}
+
+struct WindowRun {
+    /// per round: canonical item of the first readout that reports the fresh metric's update
+    first_reports: Vec<Option<String>>,
+    /// rounds whose update was reported by the readout that was in progress when it happened
+    hits: usize,
+    hook_rounds: usize,
+    failure: Option<(&'static str, String)>,
+}
+
+fn fresh_action(rec: &Rec, round: usize, kind: char, unit: usize) {
+    let name = format!("fresh_{round}");
+    let key = Key::from_name(name.clone());
+    // describe FIRST …
+    match kind {
+        'c' => rec.describe_counter(KeyName::from(name), metrics_unit(unit), "verif".into()),
+        'g' => rec.describe_gauge(KeyName::from(name), metrics_unit(unit), "verif".into()),
+        _ => rec.describe_histogram(KeyName::from(name), metrics_unit(unit), "verif".into()),
+    }
+    // … then register and update
+    match kind {
+        'c' => rec.register_counter(&key, &META).increment(5),
+        'g' => rec.register_gauge(&key, &META).set(2.5),
+        _ => rec.register_histogram(&key, &META).record(7.0),
+    }
+}
+
+fn run_window(c: &WindowCase) -> WindowRun {
+    let rec: Rec = MetricRecorder::new_with_emit_zero_counters(c.ez);
+    for i in 0..c.fillers {
+        let k = Key::from_parts("filler", vec![Label::new("i", i.to_string())]);
+        rec.register_counter(&k, &META).increment(1);
+    }
+    let n = c.rounds.len();
+    let mut first_reports: Vec<Option<String>> = vec![None; n];
+    let mut hits = 0;
+    let mut hook_rounds = 0;
+    let mut hook_available = true;
+    let mut failure: Option<(&'static str, String)> = None;
+    // checks one readout: every fresh metric it reports carries the unit it was described with
+    let mut check = |rec_entry: &RecEntry, in_progress_round: Option<usize>, hits: &mut usize| {
+        for (name, v) in &rec_entry.values {
+            let Some(r) = name.strip_prefix("fresh_").and_then(|r| r.parse::<usize>().ok()) else { continue };
+            let Ok(it) = canon_item(name, v) else { continue };
+            let Some((kind, unit)) = c.rounds.get(r) else { continue };
+            let has_update = match it.obs.first() {
+                Some(ObsC::U(d)) => *d > 0,
+                Some(ObsC::F(_)) => true,
+                Some(ObsC::R { .. }) => true,
+                None => false,
+            };
+            if it.unit != Ok(*unit) && failure.is_none() {
+                failure = Some((
+                    "metricsrs:unit-described-before-register",
+                    format!(
+                        "round {r}: `{name}` was described with unit {} and then registered ({kind}) while a readout was in progress; \
+                         a readout reports it with unit {:?}",
+                        UNITS[*unit].0, it.unit
+                    ),
+                ));
+            }
+            if has_update && first_reports[r].is_none() {
+                first_reports[r] = Some(item_str(&it));
+                if in_progress_round == Some(r) {
+                    *hits += 1;
+                }
+            }
+        }
+    };
+    let ready = AtomicUsize::new(0);
+    let go = AtomicUsize::new(0);
+    let done = AtomicUsize::new(0);
+    std::thread::scope(|s| {
+        let rec2 = rec.clone();
+        let (ready, go, done) = (&ready, &go, &done);
+        let rounds = c.rounds.clone();
+        s.spawn(move || {
+            for (r, (kind, unit)) in rounds.iter().enumerate() {
+                ready.store(r + 1, Ordering::SeqCst);
+                loop {
+                    let g = go.load(Ordering::SeqCst);
+                    if g == usize::MAX {
+                        return;
+                    }
+                    if g >= r + 1 {
+                        break;
+                    }
+                    std::hint::spin_loop();
+                }
+                // a short, varying busy delay so that the action lands at different depths of the walk
+                let spins = [0u32, 200, 2_000, 20_000][r % 4];
+                for _ in 0..spins {
+                    std::hint::spin_loop();
+                }
+                // (the action runs on this thread unless the hook already performed it for this round)
+                if HOOK_DONE_ROUND.load(Ordering::SeqCst) != r + 1 {
+                    fresh_action(&rec2, r, *kind, *unit);
+                }
+                done.store(r + 1, Ordering::SeqCst);
+            }
+        });
+        for (r, (kind, unit)) in c.rounds.iter().enumerate() {
+            while ready.load(Ordering::SeqCst) < r + 1 {
+                std::hint::spin_loop();
+            }
+            HOOK_DONE_ROUND.store(0, Ordering::SeqCst);
+            if r % 2 == 0 && hook_available {
+                // even rounds: through the hook at the start of the registry walk, if /repo has it
+                let rec3 = rec.clone();
+                let (kind, unit) = (*kind, *unit);
+                *HOOK_ACTION.lock().unwrap() = Some(Box::new(move || {
+                    fresh_action(&rec3, r, kind, unit);
+                    HOOK_DONE_ROUND.store(r + 1, Ordering::SeqCst);
+                }));
+                HOOK_ARMED.store(true, Ordering::SeqCst);
+                let e = replay(&rec.readout());
+                HOOK_ARMED.store(false, Ordering::SeqCst);
+                *HOOK_ACTION.lock().unwrap() = None;
+                if HOOK_DONE_ROUND.load(Ordering::SeqCst) == r + 1 {
+                    hook_rounds += 1;
+                } else {
+                    // /repo has no point 20: every further round uses the second thread
+                    hook_available = false;
+                }
+                check(&e, Some(r), &mut hits);
+                // release the second thread (it skips the action if the hook already did it)
+                go.store(r + 1, Ordering::SeqCst);
+            } else {
+                go.store(r + 1, Ordering::SeqCst);
+                let e = replay(&rec.readout());
+                check(&e, Some(r), &mut hits);
+            }
+            while done.load(Ordering::SeqCst) < r + 1 {
+                std::thread::yield_now();
+            }
+            // a follow-up readout: the update is reported by now at the latest
+            let e = replay(&rec.readout());
+            check(&e, None, &mut hits);
+        }
+        go.store(usize::MAX, Ordering::SeqCst);
+    });
+    if failure.is_none() {
+        if let Some(r) = first_reports.iter().position(|f| f.is_none()) {
+            failure = Some(("metricsrs:counter-exactly-once", format!("round {r}: the update of `fresh_{r}` was never reported")));
+        }
+    }
+    WindowRun { first_reports, hits, hook_rounds, failure }
+}
+
+static HOOK_DONE_ROUND: AtomicUsize = AtomicUsize::new(0);
+
+/// model request of one round: the describe, the registration and the update happen between two steps of the walk
+fn window_model_request(ez: bool, round: usize, kind: char, unit: usize) -> String {
+    let n = FRESH_BASE + round;
+    match kind {
+        'c' => format!("window {} rc:1 inc:1:1 +swapC:1 d:{n}:{unit} rc:{n} inc:{n}:5 +swapC:{n}", ez as u8),
+        'g' => format!("window {} rc:1 inc:1:1 +swapC:1 d:{n}:{unit} rg:{n} gset:{n}:4004000000000000 +gload:{n}", ez as u8),
+        _ => format!("window {} rc:1 inc:1:1 +swapC:1 d:{n}:{unit} rh:{n} hrec:{n}:7 +hswap:{n}:7", ez as u8),
+    }
 }
 
 // ------------------------------------------------------------------------------------------------
@@ -1382,7 +1668,7 @@ fn conc_failure(ez: bool, readers: usize, rep: usize, threads: &[Vec<Op>], tries
     None
 }
 
-fn u32_probe(rep: &mut Report) {
+fn u32_probe() -> Option<(String, String, String)> {
     // 2^32 samples into one bucket between two readouts
     let rec: Rec = MetricRecorder::new();
     let h = rec.register_histogram(&Key::from_name("latency"), &META);
@@ -1392,15 +1678,14 @@ fn u32_probe(rep: &mut Report) {
     }
     let e = canon_entry(&replay(&rec.readout()));
     let got: u64 = e.items.iter().flat_map(|i| i.obs.iter()).map(|o| if let ObsC::R { occ, .. } = o { *occ } else { 0 }).sum();
-    rep.bump("u32-probe:ran");
     if got != n {
-        rep.oracle_failure(
-            "metricsrs:hist-count-u32-truncation",
-            "u32-probe 4294967296 x h:1:401c000000000000 R",
-            &entry_str(&e),
-            &format!("{n} samples recorded into one bucket between two readouts, {got} occurrences reported (bucket.count() as u32)"),
-        );
+        return Some((
+            "u32-probe 4294967296 x h:1:401c000000000000 R".to_string(),
+            entry_str(&e),
+            format!("{n} samples recorded into one bucket between two readouts, {got} occurrences reported (bucket.count() as u32)"),
+        ));
     }
+    None
 }
 
 fn main() {
@@ -1416,6 +1701,12 @@ fn main() {
     );
     let mut rng = Rng::new(args.seed);
     let thorough = args.thorough();
+    // the 2^32-sample probe (≈ 1 minute of one core) runs beside everything else
+    let probe = if args.extra.get("u32-probe").map(|v| v == "1").unwrap_or(false) && args.replay_case().is_none() {
+        Some(std::thread::spawn(u32_probe))
+    } else {
+        None
+    };
     let mut cases: Vec<Case> = vec![];
     if let Some(line) = args.replay_case() {
         match Case::decode(&line) {
@@ -1449,6 +1740,17 @@ fn main() {
             cases.push(Case::Conc { ez: rng.chance(1, 3), readers, rep, threads: gen_conc(&mut rng, threads, per) });
         }
     }
+
+    if args.replay_case().is_none() {
+        let n_window = if thorough { 60 } else { 8 };
+        for i in 0..n_window {
+            let fillers = [20_000usize, 60_000, 2_000, 120_000][i % 4];
+            let rounds = (0..rng.range(6, 10)).map(|_| (*rng.pick(&['c', 'g', 'h', 'h']), rng.range(1, UNITS.len() as u64 - 1) as usize)).collect();
+            // windows first: they are the cheapest way to fail fast on an ordering defect
+            cases.insert(i, Case::Window(WindowCase { ez: i % 3 != 2, fillers, rounds }));
+        }
+    }
+    install_window_hook();
 
     let mut requests: Vec<String> = vec![];
     let mut expect: Vec<(usize, String, &'static str, BTreeSet<KeyId>)> = vec![];
@@ -1527,6 +1829,42 @@ fn main() {
                 requests.push(enc.clone());
                 expect.push((ci, if r.entries.is_empty() { "-".into() } else { r.entries.join(" # ") }, "metricsrs/script", BTreeSet::new()));
             }
+            Case::Window(w) => {
+                let r = run_window(w);
+                rep.case(&enc, r.hits > 0);
+                rep.bump("kind:window");
+                rep.bump_by("window:rounds", w.rounds.len() as u64);
+                rep.bump_by("window:rounds reported by the readout in progress", r.hits as u64);
+                rep.bump_by("window:rounds through hook point 20", r.hook_rounds as u64);
+                rep.traces_validated += 1;
+                if r.failure.is_some() {
+                    rep.bump("oracle-failing-cases");
+                }
+                if let Some((key, what)) = r.failure.clone().filter(|(k, _)| !rep.oracle_failures.iter().any(|f| f.key == *k)) {
+                    let small = shrink_list(&w.rounds, |cand| {
+                        let wc = WindowCase { ez: w.ez, fillers: w.fillers, rounds: cand.to_vec() };
+                        (0..3).any(|_| run_window(&wc).failure.map(|(k, _)| k == key).unwrap_or(false))
+                    });
+                    let wc = WindowCase { ez: w.ez, fillers: w.fillers, rounds: small };
+                    let rr = run_window(&wc);
+                    rep.oracle_failure(
+                        key,
+                        &wc.encode(),
+                        &rr.first_reports.iter().map(|f| f.clone().unwrap_or("-".into())).collect::<Vec<_>>().join(" ; "),
+                        &rr.failure.map(|(_, w)| w).unwrap_or(what),
+                    );
+                }
+                if ci < 2 {
+                    rep.sample(json!({"case": enc, "first_reports": r.first_reports, "hits": r.hits}));
+                }
+                for (round, (kind, unit)) in w.rounds.iter().enumerate() {
+                    requests.push(window_model_request(w.ez, round, *kind, *unit));
+                    // `masked` carries the fresh name: only that item of the model's entry is compared
+                    let mut fresh = BTreeSet::new();
+                    fresh.insert(KeyId { name: FRESH_BASE + round, labels: vec![] });
+                    expect.push((ci, r.first_reports[round].clone().unwrap_or("-".into()), "metricsrs/window", fresh));
+                }
+            }
             Case::Conc { ez, readers, rep: reps, threads } => {
                 let r = run_conc(*ez, *readers, *reps, threads);
                 let updated = threads.iter().flatten().any(|o| matches!(o, Op::C(..) | Op::H(..)));
@@ -1581,8 +1919,11 @@ fn main() {
         encoded.push(enc);
     }
 
-    if args.extra.get("u32-probe").map(|v| v == "1").unwrap_or(false) {
-        u32_probe(&mut rep);
+    if let Some(h) = probe {
+        if let Ok(Some((case, imp, what))) = h.join() {
+            rep.oracle_failure("metricsrs:hist-count-u32-truncation", &case, &imp, &what);
+        }
+        rep.bump("u32-probe:ran");
     }
 
     if let Some(p) = args.extra.get("dump-requests") {
@@ -1612,7 +1953,12 @@ fn main() {
         Some(replies) => {
             let mut disagreeing: Vec<usize> = vec![];
             for ((ci, want, component, masked), reply) in expect.iter().zip(replies.iter()) {
-                let got = mask_gauges(&canon_model_reply(reply), masked);
+                let got = if *component == "metricsrs/window" {
+                    let name = masked.iter().next().map(|k| k.name.to_string()).unwrap_or_default();
+                    reply.split(';').find(|it| it.split('|').nth(1) == Some(name.as_str())).unwrap_or("-").to_string()
+                } else {
+                    mask_gauges(&canon_model_reply(reply), masked)
+                };
                 if *want != got {
                     disagreeing.push(*ci);
                     // the first disagreeing script is shrunk (model and implementation re-run on every candidate)
@@ -1657,6 +2003,13 @@ fn main() {
                             }
                             rep.search_cases += 1;
                             script_failure(*ez, &cand).map(|(k, w)| (k, Case::Script { ez: *ez, ops: cand }.encode(), w))
+                        }
+                        Case::Window(w) => {
+                            if round > 60 {
+                                break 'search;
+                            }
+                            rep.search_cases += 1;
+                            run_window(w).failure.map(|(k, wh)| (k.to_string(), w.encode(), wh))
                         }
                         Case::Conc { ez, readers, rep: reps, threads } => {
                             if round > 200 {
